@@ -815,6 +815,53 @@ fn run_c17(t: &mut Tape, _tier: Tier) -> RunOut {
             scan(&mut out, "Debug/Display of key types, provider request/response and their builders", &s, &needles);
             out.probe("key_type_debug_scanned");
         }
+        // Non-interference, which needs no needle and so reaches what the scanner must leave out
+        // (secrets shorter than eight bytes, a few characters of a secret): what the key types
+        // render under any formatter flags, alone or nested in std containers, is the same text
+        // for two different secrets of the same length.
+        let render = |secret: &str| {
+            use std::str::FromStr;
+            let k = scratchstack_aws_signature::KSecretKey::<44>::from_str(secret).map_err(|e| e.to_string())?;
+            let kd = k.to_kdate(date);
+            let kr = kd.to_kregion("us-east-1");
+            let ksv = kr.to_kservice("service");
+            let kg = ksv.to_ksigning();
+            let mut s = String::new();
+            macro_rules! all_flags {
+                ($v:expr) => {
+                    s.push_str(&format!("{:?}|{:#?}|{}|{:#}|{:>24?}|{:<24}|{:.2}|{:.2?}|{:+?}|{:08?}|{:x?}|{:X?}|{:#x?}|", $v, $v, $v, $v, $v, $v, $v, $v, $v, $v, $v, $v, $v));
+                    s.push_str(&format!("{:?}|{:#?}|{:#?}|{:#?}|", Some(&$v), Some(&$v), vec![&$v, &$v], (&$v, 1u8)));
+                };
+            }
+            all_flags!(k);
+            all_flags!(kd);
+            all_flags!(kr);
+            all_flags!(ksv);
+            all_flags!(kg);
+            Ok::<String, String>(s)
+        };
+        let other: String = secret.chars().map(|c| if c == 'x' { 'y' } else { 'x' }).collect();
+        if !secret.is_empty() {
+            let a = guard(&mut out, "Debug/Display of key types under formatter flags", || render(&secret));
+            let b = guard(&mut out, "Debug/Display of key types under formatter flags", || render(&other));
+            if let (Some(Ok(a)), Some(Ok(b))) = (a, b) {
+                out.probe("key_type_rendering_compared_for_two_secrets");
+                if a != b {
+                    let at = a.bytes().zip(b.bytes()).position(|(x, y)| x != y).unwrap_or(a.len().min(b.len()));
+                    let lo = at.saturating_sub(40);
+                    out.violate(
+                        "C17",
+                        "key-rendering-independent-of-secret",
+                        format!(
+                            "the key types render differently for two secrets of {} bytes: {:?} vs {:?}",
+                            secret.len(),
+                            libi::truncate(&String::from_utf8_lossy(&a.as_bytes()[lo.min(a.len())..]), 160),
+                            libi::truncate(&String::from_utf8_lossy(&b.as_bytes()[lo.min(b.len())..]), 160)
+                        ),
+                    );
+                }
+            }
+        }
         // a secret the key type cannot hold is refused, and is a secret all the same: neither the
         // error nor anything logged on the way may show it
         let long = libi::long_secret_of(&acct);
@@ -2167,8 +2214,8 @@ pub fn registry() -> Vec<Profile> {
             id: "C17",
             title: "no leaks",
             run: run_c17,
-            required: &["error_scanned", "response_scanned", "derived_keys_scanned", "correct_signature_scanned", "debug_log_records_scanned", "log_records_captured", "key_type_debug_scanned", "canonical_and_authenticator_debug_scanned", "cross_validation_scan"],
-            rule: "history check over everything a run emitted: all `log` records at debug level or above (the capturing logger is enabled at trace so nothing is filtered before the scanner), every returned error's Display and Debug, Debug of the success response, Debug/Display of every key type, provider request/response (and builders), CanonicalRequest, SigV4Authenticator and AuthParams; needles: each account's secret, 'AWS4'+secret, kDate/kRegion/kService/kSigning of the scope in play (old and rotated secret), the correct signature of a refused request — raw, hex (both cases), base64 (std/url) and decimal-list form; workload: tampered, defective, provider-failing and accepted deliveries. Secrets shorter than 8 bytes are not searched for (coincidental matches).",
+            required: &["error_scanned", "response_scanned", "derived_keys_scanned", "correct_signature_scanned", "debug_log_records_scanned", "log_records_captured", "key_type_debug_scanned", "key_type_rendering_compared_for_two_secrets", "canonical_and_authenticator_debug_scanned", "cross_validation_scan"],
+            rule: "history check over everything a run emitted: all `log` records at debug level or above (the capturing logger is enabled at trace so nothing is filtered before the scanner), every returned error's Display and Debug, Debug of the success response, Debug/Display of every key type, provider request/response (and builders), CanonicalRequest, SigV4Authenticator and AuthParams; needles: each account's secret, 'AWS4'+secret, kDate/kRegion/kService/kSigning of the scope in play (old and rotated secret), the correct signature of a refused request — raw, hex (both cases), base64 (std/url) and decimal-list form; workload: tampered, defective, provider-failing and accepted deliveries. Secrets shorter than 8 bytes are not searched for (coincidental matches).; non-interference clause: the five key types, rendered under thirteen formatter-flag combinations and nested in Option/Vec/tuple, give the same text for two different secrets of the same length (reaches secrets shorter than the scanner's eight-byte floor and partial disclosure)",
             quick_runs: 96000,
             thorough_runs: 1152000,
             real: REAL_COMMON,
